@@ -257,6 +257,9 @@ _CMP = {
 
 def cmp(op, a, b):
     a, b = lift(a), lift(b)
+    if op in (">", ">="):
+        # one spelling per ordering comparison: a > b is b < a
+        return cmp("<" if op == ">" else "<=", b, a)
     if op in ("is", "is not"):
         if a.is_const and b.is_const:
             same = (a.value is None) == (b.value is None) and a.value == b.value
@@ -304,7 +307,7 @@ def enot(a):
     if a.op == "cmp":
         inv = {"==": "!=", "!=": "==", "<": ">=", ">=": "<", ">": "<=", "<=": ">",
                "is": "is not", "is not": "is", "in": "not in", "not in": "in"}
-        return E("cmp", inv[a.args[0]], a.args[1], a.args[2])
+        return cmp(inv[a.args[0]], a.args[1], a.args[2])
     return E("not", a)
 
 
